@@ -104,7 +104,8 @@ def suite(name, impl_bin, extract, driver, runner_name, gen, orc, corr_eq, rule)
 CHECK = {
     "property": "C02",
     "props": "Props/C02.v",
-    "theorems": ["c02_oracle_meaning", "c02_counts_and_end", "c02_names_decode", "c02_finish_header_counts_partial"],
+    "theorems": ["c02_wellformed", "c02_oracle_meaning", "c02_counts_and_end", "c02_names_decode",
+                 "c02_finish_header_counts_partial"],
     "allowed_axioms": [],
     "suites": [
         suite("pair", "impl_c04", "Extract/ExC04.v", "run_c04.ml", "C04_pair", gen_pair, O_PAIR, c04.corr_eq,
@@ -119,28 +120,39 @@ CHECK = {
     ],
     "trusted_base": [
         "Coq 8.16.1 kernel; axioms: none",
-        "THEOREM part: what a verdict of the decoder means (counts match, the message ends exactly after the last record, every owner "
-        "name and embedded name decodes under the C14 relation, OPT/TSIG placement) and that the header counts finish() writes are the "
-        "Writer's counters; ORACLE part: that every response the server emits satisfies it is decided per response by the extracted "
-        "decoder (Spec/RespS.v wf_response over Spec/MsgWriterS.v decode_msg and Spec/RdataFormatS.v grammars), not proved — C12's "
-        "message-level round trip is itself partial",
+        "c02_wellformed: every response the COMPOSED model (Model/ServerW.v) returns in octets — EVERY response without a TSIG: "
+        "answers out of Loaded zones, NOTIMP/REFUSED/SERVFAIL, and the FORMERR/BADVERS/... responses of the pre-scan — is accepted by wf_response; from C12's message-level round trip (c12_roundtrip), the key "
+        "lemma that query.rs only issues contract-obeying Writer operations (Proofs/ComposeKeyP.v), and the proof that RDATA validity "
+        "survives compression + decompression (Proofs/ComposeRdataP.v, which re-checks the component table regenerated from the Rust "
+        "source against the RFC grammars for every class and type). Trusted there: the fidelity of the models (compared octet for "
+        "octet with the real server on every run). ORACLE part (not a theorem): the responses that stay abstract in the composed "
+        "model (everything with a TSIG) — and all responses of the "
+        "REAL server — are decided per response by the extracted decoder (Spec/RespS.v wf_response over Spec/MsgWriterS.v "
+        "decode_msg and Spec/RdataFormatS.v grammars)",
         "extraction: ExtrOcamlBasic only; the three implementation runners (responses' raw octets), checks/c02.py plumbing",
     ],
     "assumptions": ["zones hold RDATA that is valid for its type wherever the server copies it into a response, and no OPT/TSIG records (both are what zone loading enforces: Rdata::validate, OptNotAllowed/TsigNotAllowed)"],
 }
 
 MANIFEST = {
-    "level_text": ("PARTIAL. Theorem part (Coq, no axioms): the executable decoder wf_response accepts an octet string exactly when it "
-                   "decodes completely under the RFC 1035 message decoder — header counts equal the numbers of questions/records "
-                   "decoded, decoding ends exactly at the end of the message, every owner name decodes under the C14 relation "
-                   "(pointers strictly backwards), every RDATA with its names decompressed is generated by the RFC grammar of its "
-                   "(class, type), QR is set, OPT at most once and only in the additional section, TSIG only as the very last record "
-                   "— and the header counts that Writer::finish writes are the Writer's counters. Oracle part (NOT a theorem): that "
-                   "every response the server emits is accepted is decided by running this extracted, verified decoder on every "
-                   "response of the real server in three suites (C04's size-limit pairs over both transports, C05's catalogs, the "
-                   "server-level stream with malformed requests, EDNS and TSIG): ~14k responses per quick run."),
-    "level_note": ("Trusted: Coq kernel, extraction, the decoder's own definition (written from RFC 1035/2782/6891/8945), the runners. "
-                   "The step from 'the Writer model emits it' to 'it decodes' needs C12's message-level round trip, which is partial."),
-    "technique": "machine-checked proof in Coq of the decoder's meaning + the extracted decoder as oracle on every implementation response",
+    "level_text": ("Theorem c02_wellformed (Coq, no axioms): for every request, transport, EDNS size, key set and every catalog whose "
+                   "Loaded entries are zones built by Zone::add over records whose RDATA is valid for its type (hypothesis "
+                   "zone_rdata_valid, explicit: Zone::add itself does not validate, zone files do), every response the composed "
+                   "model of Server::handle_message produces in octets — EVERY response that does not carry a TSIG: the error responses "
+                   "of the pre-scan (FORMERR, BADVERS, ...), and all answers out of loaded zones to clean queries: positive answers, CNAME chains, referrals with glue, NXDOMAIN/NODATA, ANY, truncated (TC) and SERVFAIL "
+                   "endings, plus NOTIMP/REFUSED/SERVFAIL for names outside loaded zones, with or without EDNS, both transports — is accepted by the independent decoder wf_response: it decodes "
+                   "completely under the RFC 1035 message decoder (header counts = records present, ends exactly after the last "
+                   "record, names decode under the C14 relation with pointers strictly backwards), QR is set, every RDATA with its "
+                   "names decompressed is generated by the RFC grammar of its (class, type), no OPT/TSIG in answer/authority, at "
+                   "most one OPT, no TSIG. c02_hypothesis_needed shows on the model that without zone_rdata_valid a served record "
+                   "is rejected (CNAME RDATA `name ++ junk`). STILL ORACLE ONLY (not a theorem): responses that are abstract in the "
+                   "composed model — the responses carrying a TSIG. The extracted "
+                   "decoder keeps running on every response of the REAL server in three suites (C04's size-limit pairs over both "
+                   "transports, C05's catalogs, the server-level stream with malformed requests, EDNS and TSIG): ~14k responses per "
+                   "quick run. First-wave theorems (meaning of the decoder's verdict, counts written by finish) are kept."),
+    "level_note": ("Trusted: Coq kernel, extraction, the decoder's own definition (written from RFC 1035/2782/6891/8945), the fidelity "
+                   "of the hand-written models (server request side, query answering, zone tree, Writer: each compared with the real "
+                   "crate on every run), the runners."),
+    "technique": "machine-checked proof in Coq (composition of C12's round trip with the query model) + the extracted decoder as oracle on every implementation response",
     "design_ref": "DESIGN.md section 4 (C02)",
 }
